@@ -1084,7 +1084,10 @@ impl<K: El, V: El> Mon<K, V> {
             let st1 = self.map.verif_state();
             let pending = if self.alloc_checks { table_live() - self.tables_base > 1 } else { st1.old.is_some() };
             if pending || st1.old.is_some() {
-                viol!("C04", "a resize is still pending after inserting capacity()-len() = {} fresh keys (state before: {:?}, after: {:?})", n, st0, st1);
+                // does not disturb the map/model agreement: fatal only when C04 is under check
+                if let Some(v) = self.soft("C04", format!("a resize is still pending after inserting capacity()-len() = {} fresh keys (state before: {:?}, after: {:?})", n, st0, st1)) {
+                    return Err(v);
+                }
             }
         }
         out.act.push(n as u64);
